@@ -368,7 +368,7 @@ theorem loads_ck_C7c (cfg : Cfg) :
     have hg : gapCheck a c.id = false := hgap (c, rs) rfl
     have hst1 : (a.loaded c.id rs sm2).sm.st = st1 := k1
     have hl1 : (a.loaded c.id rs sm2).sm.log = l1 := k2
-    have hfs1 : (a.loaded c.id rs sm2).fs = a.fs := rfl
+    have hfs1 : (a.loaded c.id rs sm2).fs = a.fs.sync c.id := rfl
     have hcl1 : (a.loaded c.id rs sm2).sm.closed = a.sm.closed ++ [c] := by
       simp only [OpenAcc.loaded, k3.closed, OpenAcc.pre, hoffs, k1, ← g3]
     have hgap1 : ∀ q, rest.head? = some q → gapCheck (a.loaded c.id rs sm2) q.1.id = false := by
@@ -388,7 +388,11 @@ theorem loads_ck_C7c (cfg : Cfg) :
       rw [kle, ← hll]; rfl
     obtain ⟨a', m1, m2, m3, m4, m5, m6, m7, m8, m9, m10, m11, m12, m13, m14⟩ :=
       ih (a.loaded c.id rs sm2) (done ++ chunkOps c.id rs) more st' l' (by rw [hst1, hl1]; exact g5)
-        (fun q hq => by rw [hfs1]; exact hfiles q (List.mem_cons_of_mem _ hq))
+        (fun q hq => by
+          rw [hfs1]
+          obtain ⟨f0, q1, q2, q3⟩ := hfiles q (List.mem_cons_of_mem _ hq)
+          obtain ⟨f', r1, r2, _⟩ := Fs.find_sync_some c.id q1
+          exact ⟨f', r1, r2.trans q2, q3⟩)
         (by simp only [List.map_cons] at hch; exact hch.tail) hgap1 hll1
         (k4.of_fields rfl rfl rfl rfl) (k5.of_fields rfl rfl rfl)
     refine ⟨a', Loads.cons hg hf hd hwf hne hrep m1, m2, m3, ?_, ?_, ?_, ?_, ?_, ?_, ?_, m11, ?_, ?_, m14⟩
@@ -443,7 +447,8 @@ that boundary is resident. -/
 theorem openStore_ck_C7c (cfg : Cfg) {s : Store} {fs : Fs} {w : Worker} {r : RefLog}
     (h : RInv s fs w r) (hinf : ∀ id, w.inflight id = []) (hp : s.pending = [])
     (hlinked : fs.linkedIds = s.chunkIds) :
-    ∃ s', openStore cfg fs = (.ok (s', { files := [⟨s.openId, prevLastOf s.closed⟩] }), fs, []) ∧
+    ∃ s', openStore cfg fs = (.ok (s', { files := [⟨s.openId, prevLastOf s.closed⟩] }),
+        fs.syncAll s.chunkIds, syncEvs s.chunkIds) ∧
       s'.st = s.st ∧ s'.log = s.log ∧ s'.closed = s.closed ∧ s'.openOffsets = s.openOffsets ∧
       s'.pending = [] ∧ s'.removed = [] ∧ s'.cfg = cfg ∧
       s'.cache.lastEvictable = prevLastOf s.closed ∧ CacheInv s' ∧
@@ -463,6 +468,8 @@ theorem openStore_ck_C7c (cfg : Cfg) {s : Store} {fs : Fs} {w : Worker} {r : Ref
     loads_ck_C7c cfg (jc ++ [(⟨s.openOffsets, s.st⟩, jo)]) { sm := emptyStore cfg, fs := fs } [] []
       s.st s.log hall hfiles (by rw [hmapoffs]; exact h.j.chained) (fun p _ => rfl) rfl hck0 hok
   obtain ⟨hfs', hevs'⟩ := m1.fs_evs
+  rw [hmapids] at hfs' hevs'
+  have hevs' : a'.evs = syncEvs s.chunkIds := by rw [hevs']; rfl
   have hloop : openLoop cfg fs.linkedIds { sm := emptyStore cfg, fs := fs } = (.ok a', a') := by
     rw [hlinked, ← hmapids]
     have := m1.openLoop_append []
